@@ -601,11 +601,12 @@ def check_C08(tier):
     PA.composition_check(rep, 2 if quick else 3)
     batch, ok = _padd_replays(rep, rng, scen, per, combos, "c08")
     # merge-tree shape for every worker count 1..9 (odd counts carry a sketch over)
+    wide = PA.Batch()                  # traces with many slots are validated separately
     if ok:
         for N in ([5, 7, 9] if quick else [5, 6, 7, 8, 9]):
             o = {"assign": [(i % N) + 1 for i in range(N)] + list(range(1, N + 1)), "st": "returned",
                  "nrec": sum(range(1, N + 1)), "bag": list(range(1, N + 1)), "part": []}
-            if not PA.replay_outcome(rep, N, N, 0, None, o, rng, {"cms", "hll"}, PA.Batch() if N > 4 else batch):
+            if not PA.replay_outcome(rep, N, N, 0, None, o, rng, {"cms", "hll"}, wide):
                 ok = False
                 break
     # code -> spec: real spawned processes; items given as a generator (documented usage)
@@ -615,13 +616,14 @@ def check_C08(tier):
             runs += [PA.real_run(n, 6, fs, None, rng, w, generator=g)
                      for n, fs, w, g in ((1, 0, {"hll"}, False), (3, 1, all3, True), (5, 0, {"cms", "hh"}, False))]
         for i, run in enumerate(runs):
-            if not PA.validate_real(rep, run, batch, "c08real%d" % i):
+            if not PA.validate_real(rep, run, wide if run["N"] > 4 else batch, "c08real%d" % i):
                 ok = False
                 break
             rep.sample({"real_run": {k: run[k] for k in ("N", "K", "outcome", "generator", "wall")},
                         "per_pid": {str(k): v for k, v in run["per_pid"].items()}}, limit=10)
     if ok:
         batch.validate(rep, "c08sk")
+        wide.validate(rep, "c08wide")
     rep.cov["exhaustive"] = True
     rep.cov["rule"] = ("TLC: every schedule of the named scenarios (safety + termination under weak fairness); each distinct "
                        "dequeue assignment (sampled per scenario) replayed against the real worker/merge code in-process; returned "
